@@ -136,7 +136,8 @@ class _EpydocLinker(DocstringLinker):
     def link_to(self, identifier: str, label: "Flattenable") -> Tag:
         fullID = self.obj.expandName(identifier)
 
-        target = self.obj.system.objForFullName(fullID)
+        # resolveName() follows the alias left behind by a re-exported object.
+        target = self.obj.resolveName(identifier)
         if target is not None:
             return taglink(target, self.page_url, label)
 
